@@ -146,6 +146,11 @@ func checkSpans(src string, toks []lexer.Token) (viol []spanViolation, compared 
 			if strings.Contains(lit, "\\") || strings.Contains(text, "\\") {
 				break
 			}
+			// a heredoc whose body has a `$` but no interpolation is handed on as a synthetic
+			// double-quoted STRING ("body"): a conversion by construction, not a span error
+			if cl == "string" && strings.HasPrefix(text, "<<<") {
+				break
+			}
 			compared++
 			if lit != text {
 				add("S4", cl, i, fmt.Sprintf("token #%d %s literal %q but source[%d:%d] is %q", i, cl, clip(lit), s, e, clip(text)))
